@@ -28,13 +28,13 @@ CHECKS = {
     'C07': dict(ready=True, technique='TLC model checking of view invariance under RotWorld (MC_Obs) + TLC-validated rotated-world quadruples (Trace_Obs)',
                 text='TLC proves view invariance under the four world rotations on the specification for all labelled grids up to 3x3 (4x4), poses and areas; the real code is run on a world and its three rotations (rotation re-checked by TLC against the specification) for exhaustive small non-square cases and random cases, and the observations must be equal.',
                 note='the harness rotates worlds with its own index arithmetic, verified per record by TLC against GVGeometry.RotGrid'),
-    'C08': dict(ready=True, technique='TLC model checking of KinematicsRule on small scopes (MC_Step) + TLC trace validation of exhaustive step records (Trace_Step)',
+    'C08': dict(ready=True, technique='TLC model checking of KinematicsRule (MC_Step) + Apalache step lemmas for every content of a 5x5/7x9 grid (GVSym) + TLC trace validation of exhaustive step records (Trace_Step) and of long histories with history variables (Trace_History)',
                 text='Exhaustive small scopes: every filling of 1x1/1x2/2x1 grids from a 15-kind alphabet and 3x3 grids with <=1 (quick) / <=2 (thorough) non-floor cells, every pose, held item, action and several compositions; the specification is model-checked against the declarative rule and every outcome of the real code is validated against the rule by TLC.',
                 note='small-scope hypothesis for grid size (move/turn inspect only the target cell); reachable-state graphs of shipped configurations are covered by C14/C04 runs'),
-    'C09': dict(ready=True, technique='TLC model checking of ConservationRule (MC_Step) + TLC trace validation of exhaustive step records incl. all random outcomes',
+    'C09': dict(ready=True, technique='TLC model checking of ConservationRule (MC_Step) + Apalache locality/exchange lemmas (GVSym) + TLC trace validation of exhaustive step records incl. all random outcomes and of long histories (inventory of the episode conserved)',
                 text='Bag of objects (type, colour, box content) incl. held item, scenery immobility and the pick/drop/swap case analysis are checked on every outcome (EnumeratingRNG) of the real code over the exhaustive small families and on the specification.',
                 note='object identity excludes door status (C10); EnumeratingRNG assumes numpy choice(n) has full support'),
-    'C10': dict(ready=True, technique='TLC model checking of DoorRule (MC_Step) + TLC trace validation of the complete door/box family',
+    'C10': dict(ready=True, technique='TLC model checking of DoorRule (MC_Step) + Apalache DoorLemma (GVSym) + TLC trace validation of the complete door/box family and of guided key-door histories with the usedKey history variable (Trace_History)',
                 text='Complete family door status x colours x held items x every relative pose (front, sides, behind, diagonal, under, out of reach, outside the grid) x 8 actions x compositions through the real code, each outcome validated by TLC against the iff-rule; the specification is model-checked against the same rule.',
                 note='quick tier uses 2 colours + NONE, thorough all 4'),
     'C11': dict(ready=True, technique='exact support by EnumeratingRNG compared by TLC with the successor sets of the specification (Trace_Step) + MC_Step',
